@@ -248,7 +248,11 @@ func TestC18Database(t *testing.T) {
 				return rapid.SampledFrom(names).Draw(t, "name")
 			}
 			var n string
-			switch rapid.IntRange(0, 4).Draw(t, "namekind") {
+			switch rapid.IntRange(0, 5).Draw(t, "namekind") {
+			case 5:
+				// long and arbitrary at once: a store that treats long names differently (digest keys,
+				// truncation) meets bytes that no text encoding leaves alone
+				n = string(rapid.SliceOfN(rapid.Byte(), 60, 100).Draw(t, "longrawname"))
 			case 0:
 				n = rapid.SampledFrom([]string{"", "a", "A", "../x", "a/b", "..", ".", "a:b", "ä", "名前", "😀", "C6:B5:00:11:22:33", "5D8A0E6F-7C3B-4F5E-9A1B-0C2D3E4F5A6B", "\x00", "a\x00b", " ", "a.entity"}).Draw(t, "special")
 			case 1:
@@ -270,6 +274,9 @@ func TestC18Database(t *testing.T) {
 					excluded++
 				} else {
 					flags["name:invalid-utf8"] = true
+					if len(n) >= 60 {
+						flags["name:long+invalid-utf8"] = true
+					}
 				}
 			}
 			names = append(names, n)
